@@ -25,7 +25,8 @@ Supported subset
   rejected    everything else, in particular: reading a variable that is not definitely assigned (a loop-local or
               branch-local variable read after the loop / in another iteration), `return` inside a loop, aliasing of
               lists/dicts (`a = b`), list indexing/slicing, calls other than len/append/enumerate, try/with/lambda/
-              comprehensions, default arguments that are used.
+              comprehensions, default arguments, a loop body that mutates the sequence it iterates over.
+  note        a mutation of an argument is visible to the model's caller only through `state` or the returned value.
 """
 import ast, hashlib, os, re, sys
 
@@ -239,6 +240,7 @@ class Tr:
                 xs, txs, wrap = self.sx(it); pat, elt = [s.target.id], txs[1] if txs[0] == "list" else None
             else: raise Unsupported("for-loop shape")
             if txs[0] != "list" or set(pat) & set(env0): raise Unsupported("for over a non-list / loop variable shadows a live variable")
+            if used([it]) & set(carried): raise Unsupported("loop body mutates the sequence it iterates over")
             frees = sorted((used(s.body) & set(env0)) - set(carried))
             for v, t in zip(pat, elt[1] if len(pat) == 2 else [elt]): self.env[v] = t
             tot, self.total_ctx = self.total_ctx, True
